@@ -37,6 +37,8 @@ type vfSnap struct {
 	Op     string `json:"op"`
 	Torn   string `json:"torn,omitempty"` // "file@length" for torn variants of a data write
 	AtTake string `json:"at_take,omitempty"`
+	Level2 bool   `json:"level2,omitempty"` // taken while a recovered store was running (second kill)
+	Parent string `json:"parent,omitempty"` // the first kill, for second-level snapshots
 }
 
 type vfSnapper struct {
@@ -130,6 +132,17 @@ type vfCrashBArgs struct {
 	Home string
 	Keys []string // base64 (keys may hold bytes that are not valid UTF-8, which JSON would replace)
 	Out  string
+	// Stage2: the recovered store is not only read but used: the whole continuation
+	// (recovery itself, further writes or another GC pass, clean Close) runs with the
+	// snapshot handler active, so a second kill during or after recovery is explored
+	// too; after the clean Close a copy of the directory is reopened and read again.
+	Stage2  bool
+	SnapOut string
+	Max2    int   // second-level snapshots handed back (seeded sample) besides the closed directory
+	Writes  int   // C06: writes issued through the recovered store
+	GCAgain []int // C07: [begin, end, merge] of the interrupted pass, run again after recovery if still legal
+	Pattern int   // 0: random sets/deletes with occasional flushes; 1: a few sets of distinct keys, each flushed (no hint split fills up)
+	Seed    uint64
 }
 
 func vfB64Keys(keys []string) (out []string) {
@@ -143,27 +156,20 @@ type vfCrashBOut struct {
 	Started bool                `json:"started"`
 	Error   string              `json:"error,omitempty"`
 	Keys    map[string]vfServed `json:"keys"`
+	// stage 2
+	Stage2Done bool                `json:"stage2_done,omitempty"`
+	Stage2Err  string              `json:"stage2_err,omitempty"`
+	Wrote      map[string]vfServed `json:"wrote,omitempty"`   // acknowledged stage-2 writes (Found=false: delete)
+	KeysGC     map[string]vfServed `json:"keys_gc,omitempty"` // read-back after the repeated GC pass
+	GCInfo     string              `json:"gc_info,omitempty"`
+	Keys2      map[string]vfServed `json:"keys2,omitempty"` // read-back after clean Close + reopen of a copy
+	Snaps      []vfSnap            `json:"snaps,omitempty"`
+	Produced   int                 `json:"produced,omitempty"` // second-level snapshots taken before sampling
 }
 
-func vfCrashB(env *vfc.Env) {
-	var a vfCrashBArgs
-	env.ParseArgs(&a)
-	vfQuiet()
-	out := vfCrashBOut{Keys: map[string]vfServed{}}
-	write := func() {
-		b, _ := json.Marshal(out)
-		ioutil.WriteFile(a.Out, b, 0644)
-	}
-	store.VFApplyConfig(a.Cfg, a.Home)
-	hs, err := store.NewHStore() // a Fatalf inside exits the process with status 1: the parent sees no output file
-	if err != nil {
-		out.Error = err.Error()
-		write()
-		return
-	}
-	out.Started = true
-	sc := &StorageClient{hs}
-	for _, k64 := range a.Keys {
+func vfDumpServed(sc *StorageClient, keys []string) map[string]vfServed {
+	m := map[string]vfServed{}
+	for _, k64 := range keys {
 		kb, _ := base64.StdEncoding.DecodeString(k64)
 		k := string(kb)
 		it, err := sc.Get(k)
@@ -176,12 +182,151 @@ func vfCrashB(env *vfc.Env) {
 				fmt.Sscanf(string(m.Body), "%d", &sv.Ver)
 			}
 		}
-		out.Keys[k64] = sv
+		m[k64] = sv
+	}
+	return m
+}
+
+func vfCrashB(env *vfc.Env) {
+	var a vfCrashBArgs
+	env.ParseArgs(&a)
+	vfQuiet()
+	out := vfCrashBOut{Keys: map[string]vfServed{}}
+	write := func() {
+		b, _ := json.Marshal(out)
+		ioutil.WriteFile(a.Out, b, 0644)
+	}
+	hooks := vfc.InstallHooks()
+	var snapper *vfSnapper
+	if a.Stage2 {
+		snapper = &vfSnapper{home: func() string { return a.Home }, out: a.SnapOut, max: 400, r: ref.NewRand(a.Seed ^ 0x52), active: true}
+		os.MkdirAll(a.SnapOut, 0755)
+		hooks.SetFS(snapper.fsHook)
+		store.VFSetSecsBeforeDump(-1)
+	}
+	store.VFApplyConfig(a.Cfg, a.Home)
+	hs, err := store.NewHStore() // a Fatalf inside exits the process with status 1: the parent sees no output file
+	if err != nil {
+		out.Error = err.Error()
+		write()
+		return
+	}
+	out.Started = true
+	sc := &StorageClient{hs}
+	out.Keys = vfDumpServed(sc, a.Keys)
+	if a.Stage2 {
+		write() // the first read-back survives a death in stage 2
+		vfCrashBStage2(env, &a, &out, hs, hooks, snapper)
 	}
 	write()
 	env.Res.Eval(1)
 	env.Res.Seen("b")
 	env.Res.Seen("b2")
+}
+
+func vfCrashBStage2(env *vfc.Env, a *vfCrashBArgs, out *vfCrashBOut, hs *store.HStore, hooks *vfc.Hooks, snapper *vfSnapper) {
+	r := ref.NewRand(a.Seed)
+	sut := &vfSUT{cfg: a.Cfg, base: a.Home, home: a.Home, hs: hs, sc: &StorageClient{hs}, hooks: hooks, res: env.Res}
+	out.Wrote = map[string]vfServed{}
+	nw := a.Writes
+	if nw > 1 {
+		nw = r.Range(1, a.Writes)
+	}
+	first := r.Intn(len(a.Keys))
+	for i := 0; i < nw; i++ {
+		k64 := a.Keys[r.Intn(len(a.Keys))]
+		if a.Pattern == 1 {
+			k64 = a.Keys[(first+i)%len(a.Keys)]
+		}
+		kb, _ := base64.StdEncoding.DecodeString(k64)
+		if a.Pattern == 0 && r.Intn(5) == 0 {
+			if _, err := sut.Delete(string(kb)); err != nil {
+				out.Stage2Err = fmt.Sprintf("delete of %q through the recovered store: %v", kb, err)
+				return
+			}
+			out.Wrote[k64] = vfServed{}
+		} else {
+			val := []byte(fmt.Sprintf("stage2|%s|%d|", k64, i))
+			for n := r.Pick(0, 10, 200, 230, 600); n > 0; n-- {
+				val = append(val, byte('a'+r.Intn(26)))
+			}
+			flag := uint32(r.Intn(1000))
+			ok, err := sut.Set(string(kb), val, flag, 0)
+			if err != nil || !ok {
+				out.Stage2Err = fmt.Sprintf("set of %q through the recovered store: ok=%v err=%v", kb, ok, err)
+				return
+			}
+			out.Wrote[k64] = vfServed{Found: true, Val: base64.StdEncoding.EncodeToString(val), Flag: flag}
+		}
+		if a.Pattern == 1 {
+			if r.Intn(3) != 0 {
+				store.VFFlush(hs, true)
+			}
+		} else if r.Intn(3) == 0 {
+			store.VFFlush(hs, r.Bool())
+		}
+	}
+	if len(a.GCAgain) == 3 {
+		hooks.WaitQuiescent(vfWatchdog)
+		ranges := store.VFLegalRanges(hs, 0)
+		if len(ranges) > 0 {
+			rg := ranges[r.Intn(len(ranges))]
+			for _, x := range ranges {
+				if x[0] == a.GCAgain[0] && x[1] == a.GCAgain[1] {
+					rg = x
+				}
+			}
+			st := store.VFGCDirect(hs, 0, rg[0], rg[1], a.GCAgain[2] != 0)
+			out.GCInfo = fmt.Sprintf("range [%d,%d] merge=%v released=%d err=%v", rg[0], rg[1], a.GCAgain[2] != 0, st.NumReleased, st.Err)
+			hooks.WaitQuiescent(vfWatchdog)
+			out.KeysGC = vfDumpServed(sut.sc, a.Keys)
+		} else {
+			out.GCInfo = "no legal range after recovery"
+		}
+	}
+	hooks.WaitQuiescent(vfWatchdog)
+	hs.Close()
+	hooks.WaitQuiescent(vfWatchdog)
+	snapper.mu.Lock()
+	snapper.active = false
+	snaps := snapper.snaps
+	snapper.mu.Unlock()
+	hooks.SetFS(nil)
+	out.Produced = len(snaps)
+	closed := filepath.Join(a.SnapOut, "closed")
+	if err := store.VFCopyDir(a.Home, closed); err != nil {
+		out.Stage2Err = "copy of the closed directory: " + err.Error()
+		return
+	}
+	re := filepath.Join(a.SnapOut, "reopen")
+	store.VFCopyDir(closed, re)
+	store.VFApplyConfig(a.Cfg, re)
+	hs2, err := store.NewHStore()
+	if err != nil {
+		out.Stage2Err = "reopen after the clean close of the recovered store: " + err.Error()
+		return
+	}
+	out.Keys2 = vfDumpServed(&StorageClient{hs2}, a.Keys)
+	hooks.WaitQuiescent(vfWatchdog)
+	hs2.Close()
+	hooks.WaitQuiescent(vfWatchdog)
+	os.RemoveAll(re)
+	// hand back a seeded sample of the second-level snapshots plus the closed directory
+	keep := map[int]bool{}
+	for len(keep) < a.Max2 && len(keep) < len(snaps) {
+		keep[r.Intn(len(snaps))] = true
+	}
+	for i, s := range snaps {
+		if keep[i] {
+			s.Event = "2nd kill: " + s.Event
+			s.Level2 = true
+			out.Snaps = append(out.Snaps, s)
+		} else {
+			os.RemoveAll(s.Dir)
+		}
+	}
+	out.Snaps = append(out.Snaps, vfSnap{Dir: closed, Event: "clean close after recovery", Op: "closed-after-recovery", Level2: true, AtTake: vfDirListing(closed)})
+	out.Stage2Done = true
 }
 
 // ---------------------------------------------------------------------------
@@ -229,6 +374,9 @@ type vfCrashVerifier struct {
 	expected map[string]*ref.Entry
 	// history: every value ever accepted per key (to classify wrong reads)
 	written map[string]map[string]int32 // key -> base64 value -> version
+	// stage 2 (see vfCrashBArgs): every stage2Every-th served snapshot is continued
+	stage2Every, stage2Phase, max2, writes2 int
+	gcAgain                                 []int
 }
 
 func (v *vfCrashVerifier) verify(s vfSnap) {
@@ -247,9 +395,41 @@ func (v *vfCrashVerifier) verify(s vfSnap) {
 			}
 		}()
 	}
+	lvl := ""
+	if s.Level2 {
+		lvl = "2nd:"
+	}
 	detailTail := fmt.Sprintf("\ncrash point: %s %s\ndirectory at the crash: %s %s\n(listing when the snapshot was taken: %s)", s.Event, s.Torn, vfDirListing(s.Dir), keep, s.AtTake)
+	if s.Parent != "" {
+		detailTail += "\nfirst kill: " + s.Parent
+	}
+	// every stage2Every-th snapshot is continued, and every snapshot whose index files are
+	// ahead of the data files (or that has a torn tail and is served anyway)
+	stage2 := !s.Level2 && v.stage2Every > 0 && vfSnapNo(s.Dir)%v.stage2Every == v.stage2Phase%v.stage2Every
+	special := ""
+	if !s.Level2 && v.stage2Every > 0 {
+		if special = vfIndexAhead(s.Dir); special == "" && len(torn) > 0 {
+			special = "torn-tail"
+		}
+		if special != "" {
+			stage2 = true
+		}
+	}
 	outPath := filepath.Join(s.Dir, "..", filepath.Base(s.Dir)+".served.json")
-	args, _ := json.Marshal(vfCrashBArgs{Cfg: v.cfg, Home: s.Dir, Keys: vfB64Keys(v.keys), Out: outPath})
+	ba := vfCrashBArgs{Cfg: v.cfg, Home: s.Dir, Keys: vfB64Keys(v.keys), Out: outPath}
+	if stage2 {
+		ba.Stage2, ba.SnapOut, ba.Max2, ba.Writes, ba.GCAgain = true, filepath.Join(s.Dir, "..", filepath.Base(s.Dir)+".l2"), v.max2, v.writes2, v.gcAgain
+		ba.Seed = uint64(vfSnapNo(s.Dir))*2654435761 + 17
+		if special != "" {
+			ba.Max2 = 4 * v.max2
+			if v.writes2 > 0 {
+				ba.Pattern = 1 - vfSnapNo(s.Dir)%3%2 // two of three continuations keep every hint split open
+			}
+			res.Event("stage2.special."+special, 1)
+		}
+		defer os.RemoveAll(ba.SnapOut)
+	}
+	args, _ := json.Marshal(ba)
 	cmd := exec.Command(os.Args[0], "-mode", "db.crashb", "-args", string(args), "-work", filepath.Join(s.Dir, "..", "bwork"))
 	var logbuf bytes.Buffer
 	cmd.Stdout, cmd.Stderr = &logbuf, &logbuf
@@ -261,12 +441,19 @@ func (v *vfCrashVerifier) verify(s vfSnap) {
 	go func() { done <- cmd.Wait() }()
 	select {
 	case <-done:
-	case <-time.After(vfWatchdog):
+	case <-time.After(vfWatchdog * 2):
 		cmd.Process.Kill()
 		res.Inconc("recovery child exceeded the watchdog on " + s.Event)
 		return
 	}
 	defer os.Remove(outPath)
+	logTail := func() string {
+		lt := logbuf.String()
+		if len(lt) > 900 {
+			lt = lt[len(lt)-900:]
+		}
+		return strings.TrimSpace(lt)
+	}
 	var out vfCrashBOut
 	b, rerr := ioutil.ReadFile(outPath)
 	if rerr == nil {
@@ -275,16 +462,12 @@ func (v *vfCrashVerifier) verify(s vfSnap) {
 	if rerr != nil || !out.Started {
 		why := out.Error
 		if rerr != nil {
-			lt := logbuf.String()
-			if len(lt) > 600 {
-				lt = lt[len(lt)-600:]
-			}
-			why = "process exited without serving: " + strings.TrimSpace(lt)
+			why = "process exited without serving: " + logTail()
 		}
 		res.Event("recovery.refused", 1)
-		res.Seen(fmt.Sprintf("crash/%s/%s/refused", s.Op, state))
+		res.Seen(fmt.Sprintf("crash/%s%s/%s/refused", lvl, s.Op, state))
 		if len(torn) == 0 {
-			res.Violate(v.id, v.prop+":refused-without-torn-tail:"+s.Op, "after a kill at this point the store refuses to start although no data file ends in a partial record: "+why+detailTail, v.replay)
+			res.Violate(v.id, v.prop+":"+lvl+"refused-without-torn-tail:"+s.Op, "after a kill at this point the store refuses to start although no data file ends in a partial record: "+why+detailTail, v.replay)
 		}
 		return
 	}
@@ -292,40 +475,147 @@ func (v *vfCrashVerifier) verify(s vfSnap) {
 	if len(torn) > 0 {
 		res.Event("recovery.served_despite_torn_tail", 1)
 	}
-	res.Seen(fmt.Sprintf("crash/%s/%s/served/torn=%v", s.Op, state, len(torn) > 0))
+	res.Seen(fmt.Sprintf("crash/%s%s/%s/served/torn=%v", lvl, s.Op, state, len(torn) > 0))
+	want := map[string]*ref.Entry{}
 	for _, k := range v.keys {
-		got, answered := out.Keys[base64.StdEncoding.EncodeToString([]byte(k))]
-		if !answered {
-			res.Inconc("recovery child did not report key " + k)
-			return
-		}
-		var want *ref.Entry
 		if v.expected != nil {
-			want = v.expected[k]
+			want[k] = v.expected[k]
 		} else if d, ok := newest[k]; ok {
 			val, okv := vfLogicalValue(d.Rec)
 			if !okv {
+				want[k] = vfSkipEntry
 				continue
 			}
-			want = &ref.Entry{Ver: d.Rec.Ver, Value: val, Flag: d.Rec.Flag &^ ref.FlagCompress}
+			want[k] = &ref.Entry{Ver: d.Rec.Ver, Value: val, Flag: d.Rec.Flag &^ ref.FlagCompress}
+		}
+	}
+	if !v.judge(out.Keys, want, lvl+s.Op, "after recovery", detailTail) || !stage2 {
+		return
+	}
+	// ---- stage 2: the recovered store is used, killed again, closed and reopened ----
+	res.Event("stage2.runs", 1)
+	if !out.Stage2Done {
+		if out.Stage2Err != "" {
+			res.Violate(v.id, v.prop+":stage2-error:"+s.Op, "the store recovered from this kill fails when it is used: "+out.Stage2Err+detailTail, v.replay)
+		} else {
+			res.Violate(v.id, v.prop+":stage2-died:"+s.Op, "the process that recovered from this kill died while the store was used / closed / reopened: "+logTail()+detailTail, v.replay)
+		}
+		return
+	}
+	res.Event("stage2.snapshots_produced", int64(out.Produced))
+	res.Event("stage2.writes", int64(len(out.Wrote)))
+	// expectation after the continuation: what recovery served, updated by the acknowledged stage-2 writes
+	want2 := map[string]*ref.Entry{}
+	for _, k := range v.keys {
+		k64 := base64.StdEncoding.EncodeToString([]byte(k))
+		if w, ok := out.Wrote[k64]; ok {
+			if w.Found {
+				val, _ := base64.StdEncoding.DecodeString(w.Val)
+				want2[k] = &ref.Entry{Ver: vfAnyVersion, Value: val, Flag: w.Flag}
+			}
+			continue
+		}
+		if g := out.Keys[k64]; g.Found {
+			val, _ := base64.StdEncoding.DecodeString(g.Val)
+			want2[k] = &ref.Entry{Ver: g.Ver, Value: val, Flag: g.Flag}
+		}
+	}
+	if out.KeysGC != nil {
+		res.Event("stage2.gc_again", 1)
+		if !v.judge(out.KeysGC, want2, "gc-again:"+s.Op, "after recovery and a repeated GC pass ("+out.GCInfo+")", detailTail) {
+			return
+		}
+	}
+	if !v.judge(out.Keys2, want2, "reopen:"+s.Op, "after recovery, use, clean close and reopen", detailTail) {
+		return
+	}
+	for _, s2 := range out.Snaps {
+		s2.Parent = s.Event + " " + s.Torn
+		res.Event("stage2.snapshots_verified", 1)
+		res.Event("snap2."+s2.Op, 1)
+		v.verify(s2)
+	}
+}
+
+// vfIndexAhead reports whether some index file of the snapshot describes more than the
+// data files hold: an index file of a chunk that has no data file, or a hint whose
+// recorded data size exceeds its data file.
+func vfIndexAhead(dir string) string {
+	ents, _ := ioutil.ReadDir(dir)
+	size := map[int]int64{}
+	for _, e := range ents {
+		var c int
+		if n, _ := fmt.Sscanf(e.Name(), "%03d.data", &c); n == 1 && strings.HasSuffix(e.Name(), ".data") {
+			size[c] = e.Size()
+		}
+	}
+	for _, e := range ents {
+		var c, sp int
+		name := e.Name()
+		if !strings.HasSuffix(name, ".idx.s") && !strings.HasSuffix(name, ".idx.hash") && !strings.HasSuffix(name, ".idx.m") {
+			continue
+		}
+		if n, _ := fmt.Sscanf(name, "%03d.%03d.idx.", &c, &sp); n < 1 {
+			continue
+		}
+		sz, ok := size[c]
+		if !ok {
+			return "index-without-data-file"
+		}
+		if strings.HasSuffix(name, ".idx.s") {
+			if b, err := ioutil.ReadFile(filepath.Join(dir, name)); err == nil {
+				if hf, err := ref.ParseHintFile(b); err == nil && int64(hf.DataSize) > sz {
+					return "hint-covers-more-than-data"
+				}
+			}
+		}
+	}
+	return ""
+}
+
+// vfSkipEntry marks a key whose durable record cannot be expanded by the reference (not judged).
+var vfSkipEntry = &ref.Entry{}
+
+// vfAnyVersion: the version of a stage-2 write is whatever the store assigned (positive).
+const vfAnyVersion = int32(1<<31 - 1)
+
+func vfSnapNo(dir string) int {
+	n := 0
+	fmt.Sscanf(filepath.Base(dir), "s%d", &n)
+	return n
+}
+
+// judge compares one read-back with the expectation; false after the first violation.
+func (v *vfCrashVerifier) judge(served map[string]vfServed, wantm map[string]*ref.Entry, op, when, detailTail string) bool {
+	res := v.res
+	for _, k := range v.keys {
+		got, answered := served[base64.StdEncoding.EncodeToString([]byte(k))]
+		if !answered {
+			res.Inconc("recovery child did not report key " + k)
+			return false
+		}
+		want := wantm[k]
+		if want == vfSkipEntry {
+			continue
 		}
 		wantLive := want != nil && want.Ver > 0
 		gv, _ := base64.StdEncoding.DecodeString(got.Val)
 		switch {
 		case got.Err != "":
-			res.Violate(v.id, v.prop+":get-error:"+s.Op, fmt.Sprintf("key %q: get returns an error after recovery: %s; durable state of the key: %s", k, got.Err, vfWantStr(want))+detailTail, v.replay)
-			return
+			res.Violate(v.id, v.prop+":get-error:"+op, fmt.Sprintf("key %q: get returns an error %s: %s; expected state of the key: %s", k, when, got.Err, vfWantStr(want))+detailTail, v.replay)
+			return false
 		case wantLive && !got.Found:
-			res.Violate(v.id, v.prop+":durable-value-missing:"+s.Op, fmt.Sprintf("key %q reads as a miss after recovery; durable state: %s", k, vfWantStr(want))+detailTail, v.replay)
-			return
+			res.Violate(v.id, v.prop+":durable-value-missing:"+op, fmt.Sprintf("key %q reads as a miss %s; expected state: %s", k, when, vfWantStr(want))+detailTail, v.replay)
+			return false
 		case !wantLive && got.Found:
-			res.Violate(v.id, v.prop+":deleted-or-unknown-key-served:"+s.Op, fmt.Sprintf("key %q returns a value (%d bytes, version %d, %s) after recovery; durable state: %s", k, len(gv), got.Ver, v.classify(k, got.Val), vfWantStr(want))+detailTail, v.replay)
-			return
-		case wantLive && (!bytes.Equal(gv, want.Value) || got.Flag != want.Flag || got.Ver != want.Ver):
-			res.Violate(v.id, v.prop+":wrong-value:"+v.classify(k, got.Val)+":"+s.Op, fmt.Sprintf("key %q after recovery: %d bytes flag %#x version %d (%s); durable state: %s", k, len(gv), got.Flag, got.Ver, v.classify(k, got.Val), vfWantStr(want))+detailTail, v.replay)
-			return
+			res.Violate(v.id, v.prop+":deleted-or-unknown-key-served:"+op, fmt.Sprintf("key %q returns a value (%d bytes, version %d, %s) %s; expected state: %s", k, len(gv), got.Ver, v.classify(k, got.Val), when, vfWantStr(want))+detailTail, v.replay)
+			return false
+		case wantLive && (!bytes.Equal(gv, want.Value) || got.Flag != want.Flag || (want.Ver != vfAnyVersion && got.Ver != want.Ver)):
+			res.Violate(v.id, v.prop+":wrong-value:"+v.classify(k, got.Val)+":"+op, fmt.Sprintf("key %q %s: %d bytes flag %#x version %d (%s); expected state: %s", k, when, len(gv), got.Flag, got.Ver, v.classify(k, got.Val), vfWantStr(want))+detailTail, v.replay)
+			return false
 		}
 	}
+	return true
 }
 
 func (v *vfCrashVerifier) classify(key, b64 string) string {
@@ -412,6 +702,9 @@ type vfC06Args struct {
 	Histories int
 	MaxSnaps  int
 	Workers   int
+	// stage 2: every Stage2Every-th served snapshot is continued (writes / repeated GC,
+	// second-level snapshots, clean close, reopen); Max2 second-level snapshots are verified
+	Stage2Every, Max2, Writes2 int
 }
 
 // writtenRecorder wraps the SUT to remember every value ever accepted.
@@ -475,7 +768,8 @@ func vfC06(env *vfc.Env) {
 		snapper.mu.Unlock()
 		hooks.SetFS(nil)
 		sut.Destroy()
-		v := &vfCrashVerifier{cfg: cfg, keys: keys, res: res, id: id, prop: "c06", replay: c, written: wr.written}
+		v := &vfCrashVerifier{cfg: cfg, keys: keys, res: res, id: id, prop: "c06", replay: c, written: wr.written,
+			stage2Every: a.Stage2Every, stage2Phase: h + int(env.Seed%7), max2: a.Max2, writes2: a.Writes2}
 		vfVerifyAll(v, snaps, a.Workers)
 		res.Event("histories", 1)
 		res.Event("snapshots", int64(len(snaps)))
